@@ -97,7 +97,9 @@ func c30(r *core.Run) {
 		"(R3) VM/compiler: every loop construct emits InstructionLoop, statements emit InstructionStatement, opLoop/opStatement/invoke meter, and pushCallFrame tests StackDepthLimit before pushing; no peephole pattern contains a metering or jump opcode."
 	r.NotDecided = "termination; that the metered amounts are adequate (e.g. which operand's length a usage is computed from)."
 	w := r.W
-	named := func(n string) func(*types.Func) bool { return func(o *types.Func) bool { return o != nil && o.Name() == n } }
+	named := func(n string) func(*types.Func) bool {
+		return func(o *types.Func) bool { return o != nil && o.Name() == n }
+	}
 
 	// R1 census
 	edges := meteringEdges(w)
